@@ -143,6 +143,16 @@ func handCorpus() []Case {
 		calls = append(calls, Call{Kind: "leg", Sc: s, Idx: 1, Ht: 1})
 		calls = append(calls, Call{Kind: "leg", Sc: s, Idx: 2, Ht: 0x83})
 	}
+	// script codes at the five-byte CompactSize boundary (0xfd ffff | 0xfe 00000100), legacy and BIP143: exactly 65535 and
+	// 65536 bytes (one PUSHDATA2 each - few operations keep the Lean Spec's parser, quadratic in the number of operations,
+	// fast), 65536 bytes left after code separators in front and behind are removed, a PUSHDATA4 of 70000 bytes whose
+	// data is full of 0xab bytes (kept) followed by a real code separator (removed), and 65536 one-byte operations
+	push2 := func(n int, b string) string { return fmt.Sprintf("4d%02x%02x", n&0xff, n>>8) + strings.Repeat(b, n) }
+	for i, s := range []string{push2(65532, "00"), push2(65533, "00"), "ab" + push2(65533, "7f") + "ab",
+		"4e70110100" + strings.Repeat("ab", 70000) + "abac", strings.Repeat("51", 65536)} {
+		calls = append(calls, Call{Kind: "leg", Sc: s, Idx: 1, Ht: 1, NoSpec: i == 4}, Call{Kind: "leg", Sc: s, Idx: 2, Ht: 0x83, NoSpec: i == 4},
+			Call{Kind: "wit", Sc: s, Amount: 6000, Idx: 1, Ht: 1})
+	}
 	// index out of range
 	calls = append(calls, Call{Kind: "leg", Sc: sc, Idx: 3, Ht: 1}, Call{Kind: "leg", Sc: sc, Idx: 3, Ht: 0x81},
 		Call{Kind: "wit", Sc: sc, Idx: 3, Ht: 1}, Call{Kind: "tap", Idx: 3, Ht: 1}, Call{Kind: "tap", Idx: 3, Ht: 0x81}, Call{Kind: "tap", Idx: 7, Ht: 3})
@@ -159,7 +169,8 @@ func handCorpus() []Case {
 	for _, ht := range []uint32{0, 1, 2, 3, 0x81, 0x83, 5} {
 		big.Calls = append(big.Calls, Call{Kind: "leg", Sc: strings.Repeat("51", 253), Idx: 252, Ht: ht},
 			Call{Kind: "wit", Sc: strings.Repeat("51", 70000), Amount: 1 << 63, Idx: 252, Ht: ht},
-			Call{Kind: "tap", Idx: 252, Ht: ht}, Call{Kind: "leg", Sc: "ac", Idx: 0, Ht: ht})
+			Call{Kind: "tap", Idx: 252, Ht: ht}, Call{Kind: "leg", Sc: "ac", Idx: 0, Ht: ht},
+			Call{Kind: "leg", Sc: "4e70110100" + strings.Repeat("51", 70000), Idx: 252, Ht: ht})
 	}
 	// short Spent_outputs: panic in the middle of the cache fill, then the same object again
 	poison := two
